@@ -1002,13 +1002,13 @@ def sign_zone(
     else:
         keys = []
 
+    if zone.origin is None:
+        raise ValueError("no zone origin")
+
     if txn:
         cm: contextlib.AbstractContextManager = contextlib.nullcontext(txn)
     else:
         cm = zone.writer()
-
-    if zone.origin is None:
-        raise ValueError("no zone origin")
 
     with cm as _txn:
         if add_dnskey:
